@@ -13,6 +13,7 @@ import FianoModel.Uefi.ValidateWf
 import FianoModel.Uefi.ValidateImage
 import FianoModel.Uefi.ValidateTie
 import FianoModel.Uefi.Tie   -- audited as a tie module of this check: make sure it is built with it
+import FianoModel.Uefi.CodeTie   -- T1 code-as-code tie (wp-t1x): audited as a tie module of this check
 
 namespace Fiano.Props.C09
 open Fiano Fiano.Uefi Fiano.Uefi.Spec
